@@ -302,7 +302,7 @@ func runC11(c *core.Ctx) {
 		case 2:
 			d = wl.SoupFrom(r, c10Tokens, 1+r.Intn(10))
 		default:
-			d = wl.Mix(r, corpus)
+			d = mixDoc(r, corpus)
 		}
 		if i%6 == 4 {
 			// GFM against its four members under every combination of renderer flags and parser options, interleaved in one
